@@ -24,6 +24,7 @@ def handle (line : String) : String :=
   | "rx" :: args => Codec.runRx args
   | "use" :: args => Codec.runUse args
   | "rd" :: args => Reader.run args
+  | "rdraw" :: args => Reader.runRaw args
   | "mux" :: args => Mux.run args
   | "life" :: args => Life.run args
   | "lr" :: args => LoginRecord.run args
